@@ -198,10 +198,7 @@ type cset struct {
 	id    int
 	key   string
 	phase int // sets with a smaller phase were first measured strictly before
-	sum   float64
-	count uint64
-	last  float64
-	vals  map[float64]bool
+	fold      // its measurements, in the order its (single) goroutine made them
 }
 
 // cstream is one (reader, instrument) stream.
@@ -336,13 +333,10 @@ func concOnce(c ConcCase, run int, info *vk.Info, bad func(kind, format string, 
 			st := streams[r][i]
 			s := st.life[id]
 			if s == nil {
-				s = &cset{id: id, key: key, phase: ph, vals: map[float64]bool{}}
+				s = &cset{id: id, key: key, phase: ph}
 				st.life[id] = s
 			}
-			s.sum += v
-			s.count++
-			s.last = v
-			s.vals[v] = true
+			s.add(v)
 		}
 	}
 
@@ -492,8 +486,12 @@ func concCompare(where string, st *cstream, in CInst, gs []gotMetric, limit int,
 				bad("point_value", "%s: set %s reports %v, its last measurement is %v", where, p.key, p.val, s.last)
 			}
 		default:
-			if p.count != s.count || (!noSum && p.sum != s.sum) {
-				bad("point_value", "%s: set %s reports count %d sum %v, measured count %d sum %v", where, p.key, p.count, p.sum, s.count, s.sum)
+			diffs, cls := checkHistPoint(st.agg, noSum, p, &s.fold, false)
+			for _, d := range diffs {
+				bad("point_value", "%s: set %s reports %s", where, p.key, d)
+			}
+			for _, cl := range cls {
+				info.Class(cl)
 			}
 		}
 	}
@@ -527,7 +525,7 @@ func concCompare(where string, st *cstream, in CInst, gs []gotMetric, limit int,
 		bad("identified_sets", "%s: %d sets keep their identity, the rule gives %d (limit %d, %d distinct sets measured)", where, len(ident), want, limit, n)
 	}
 	maxIdent, minOvf := -1, int(^uint(0)>>1)
-	var ovfVals = map[float64]bool{}
+	var ovfFold fold // everything folded into the overflow point (interleaving unknown)
 	for _, s := range st.life {
 		if ident[s.id] {
 			if s.phase > maxIdent {
@@ -537,9 +535,7 @@ func concCompare(where string, st *cstream, in CInst, gs []gotMetric, limit int,
 			if s.phase < minOvf {
 				minOvf = s.phase
 			}
-			for v := range s.vals {
-				ovfVals[v] = true
-			}
+			ovfFold.merge(&s.fold)
 		}
 	}
 	if len(ident) < n && minOvf < maxIdent {
@@ -548,8 +544,26 @@ func concCompare(where string, st *cstream, in CInst, gs []gotMetric, limit int,
 	if (ovf != nil) != (len(ident) < n) {
 		bad("overflow_point", "%s: overflow point present=%v although %d of %d measured sets are reported with their identity", where, ovf != nil, len(ident), n)
 	}
-	if ovf != nil && st.agg.kind == aLast && !ovfVals[ovf.val] {
+	if ovf != nil && st.agg.kind == aLast && ovfFold.vals[ovf.val] == 0 {
 		bad("overflow_point", "%s: overflow point holds %v, which no overflowing measurement recorded", where, ovf.val)
+	}
+	if ovf != nil && ovfFold.count > 0 {
+		// the overflow point carries exactly the measurements of the sets that
+		// are not reported with their identity
+		switch st.agg.kind {
+		case aSum:
+			if ovf.val != ovfFold.sum {
+				bad("overflow_point", "%s: overflow point reports %v, the measurements of the folded sets add up to %v", where, ovf.val, ovfFold.sum)
+			}
+		case aHist, aExpo:
+			diffs, cls := checkHistPoint(st.agg, noSum, *ovf, &ovfFold, true)
+			for _, d := range diffs {
+				bad("overflow_point", "%s: overflow point reports %s", where, d)
+			}
+			for _, cl := range cls {
+				info.Class(cl)
+			}
+		}
 	}
 	if !st.delta {
 		// cumulative: the table is never reset, identities are for life
@@ -628,4 +642,5 @@ func TestLimitConcurrent(t *testing.T) {
 		Gen: genConc, Run: runConc,
 		Repeat: 200,
 	})
+	t.Log(statLine())
 }
